@@ -149,6 +149,18 @@ def analyse_unit(repo: Path, pkg: str, mods: dict, agents: set[str], helper_rng:
              "rngOther": [], "fitnessReads": [], "directionReads": [], "whileLoops": [], "files": [str(p.relative_to(repo)) for p in mods]}
     opt_cls = None
     opt_file = None
+    # private attributes bound (without a copy) to a mutable field of the configuration / task: `self.__x = self._config.<field>`
+    cfg_attr_alias, task_attr_alias = set(), set()
+    for path, tree in mods.items():
+        for n in ast.walk(tree):
+            if isinstance(n, ast.Assign) and is_uncopied(n.value):
+                rc = root_chain(n.value)
+                if rc and rc[0] == "self" and len(rc[1]) > 1 and rc[1][0] in ("_config", "_task"):
+                    for t in n.targets:
+                        for e in (t.elts if isinstance(t, (ast.Tuple, ast.List)) else [t]):
+                            rt = root_chain(e)
+                            if rt and rt[0] == "self" and len(rt[1]) == 1 and rt[1][0] not in ("_config", "_task"):
+                                (cfg_attr_alias if rc[1][0] == "_config" else task_attr_alias).add(rt[1][0])
     for path, tree in mods.items():
         rel = str(path.relative_to(repo))
         aliases = import_aliases(tree)
@@ -174,6 +186,20 @@ def analyse_unit(repo: Path, pkg: str, mods: dict, agents: set[str], helper_rng:
                         task_alias.add(n.targets[0].id)
                     if rc and rc[1] and rc[1][-1] in CORE_ATTRS and rc[0] != "self":
                         pos_alias.add(n.targets[0].id)
+                    if rc and rc[0] == "self" and len(rc[1]) == 1 and rc[1][0] in cfg_attr_alias:
+                        cfg_alias.add(n.targets[0].id)
+                    if rc and rc[0] == "self" and len(rc[1]) == 1 and rc[1][0] in task_attr_alias:
+                        task_alias.add(n.targets[0].id)
+                # `for x in (a, b, c)` over a literal of (aliases of) config / task fields binds x to each of them in turn
+                if isinstance(n, (ast.For, ast.comprehension)) and isinstance(n.target, ast.Name) and isinstance(n.iter, (ast.Tuple, ast.List)):
+                    for el in n.iter.elts:
+                        rc = root_chain(el) if is_uncopied(el) else None
+                        if not rc:
+                            continue
+                        if (rc[0] == "self" and rc[1][:1] == ["_config"] and len(rc[1]) > 1) or (rc[0] == "self" and len(rc[1]) == 1 and rc[1][0] in cfg_attr_alias) or (rc[0] in cfg_alias and not rc[1]):
+                            cfg_alias.add(n.target.id)
+                        if (rc[0] == "self" and rc[1][:1] == ["_task"] and len(rc[1]) > 1) or (rc[0] == "self" and len(rc[1]) == 1 and rc[1][0] in task_attr_alias) or (rc[0] in task_alias and not rc[1]):
+                            task_alias.add(n.target.id)
             for n in own_nodes(fn):
                 where = f"{rel}:{getattr(n, 'lineno', 0)}:{qual}"
                 # ---- agent constructions
@@ -221,6 +247,10 @@ def analyse_unit(repo: Path, pkg: str, mods: dict, agents: set[str], helper_rng:
                                 facts["cfgWrites"].append({"what": U(n.func), "where": where})
                             elif rc[0] == "self" and rc[1][:1] == ["_task"] and len(rc[1]) > 1:
                                 facts["taskWrites"].append({"what": U(n.func), "where": where})
+                            elif rc[0] == "self" and rc[1][:1] and rc[1][0] in cfg_attr_alias:
+                                facts["cfgWrites"].append({"what": "attribute alias " + U(n.func), "where": where})
+                            elif rc[0] == "self" and rc[1][:1] and rc[1][0] in task_attr_alias:
+                                facts["taskWrites"].append({"what": "attribute alias " + U(n.func), "where": where})
                             elif rc[0] in cfg_alias:
                                 facts["cfgWrites"].append({"what": "alias " + U(n.func), "where": where})
                             elif rc[0] in task_alias:
@@ -258,6 +288,10 @@ def analyse_unit(repo: Path, pkg: str, mods: dict, agents: set[str], helper_rng:
                         facts["cfgWrites"].append({"what": U(t), "where": where})
                     elif base == "self" and chain[:1] == ["_task"] and len(chain) > 1:
                         facts["taskWrites"].append({"what": U(t), "where": where})
+                    elif base == "self" and len(chain) > 1 and chain[0] in cfg_attr_alias:
+                        facts["cfgWrites"].append({"what": "attribute alias " + U(t), "where": where})
+                    elif base == "self" and len(chain) > 1 and chain[0] in task_attr_alias:
+                        facts["taskWrites"].append({"what": "attribute alias " + U(t), "where": where})
                     elif base in cfg_alias and chain:
                         facts["cfgWrites"].append({"what": "alias " + U(t), "where": where})
                     elif base in task_alias and chain:
@@ -453,6 +487,13 @@ def analyse_core(repo: Path):
                         if s in ("np.random.default_rng", "np.random.RandomState", "time.time", "os.urandom"):
                             srcs.add(s)
                 helper_rng[qual] = sorted(srcs)
+    hp = parse(repo / "pyvolutionary" / "helpers.py")
+    shapes = {}
+    for n in hp.body:
+        if isinstance(n, ast.FunctionDef) and n.name in ("get_pool_results", "get_pool_executor"):
+            shapes[n.name] = [U(st) for st in n.body if not (isinstance(st, ast.Expr) and isinstance(st.value, ast.Constant))]
+    core["poolResultsShape"] = shapes.get("get_pool_results") == ["res = []", "for i in parallel.as_completed(executors):\n    res.append(i.result())", "return res"]
+    core["poolExecutorShape"] = shapes.get("get_pool_executor") == ["return parallel.ThreadPoolExecutor(n_workers) if mode == ModeSolver.THREAD else parallel.ProcessPoolExecutor(n_workers)"]
     core["objectiveCallers"] = {k: sorted(set(v)) for k, v in refs.items()}
     core["whileLoops"] = whiles
     core["helperRng"] = {k: v for k, v in helper_rng.items() if v}
@@ -591,6 +632,8 @@ structure CoreFacts where
   seedIsInt : Bool                          -- declared type of `Task.seed` admits an int and nothing numpy rejects
   frameworkWhileLoops : Nat
   helperNonNumpyRng : Nat
+  poolResultsShape : Bool                   -- `get_pool_results` = collect `as_completed(executors)` into a list, nothing else
+  poolExecutorShape : Bool                  -- `get_pool_executor` = ThreadPoolExecutor / ProcessPoolExecutor with n_workers
 deriving Repr
 """)
     ps = {"return": "ret"}
@@ -601,7 +644,8 @@ deriving Repr
     C.append("    prologue := %s," % lean_list("." + ps.get(x, x) for x in core["prologueOrder"]))
     C.append("    initAgentShape := %s, solveShape := %s, initialSolutionShape := %s," % tuple("true" if core[k] else "false" for k in ("initAgentShape", "solveShape", "initialSolutionShape")))
     seed_ok = core["seedAnnotation"] is not None and "int" in core["seedAnnotation"] and "float" not in core["seedAnnotation"]
-    C.append("    seedIsInt := %s, frameworkWhileLoops := %d, helperNonNumpyRng := %d }" % ("true" if seed_ok else "false", len(core["whileLoops"]), len(core["helperRng"])))
+    C.append("    seedIsInt := %s, frameworkWhileLoops := %d, helperNonNumpyRng := %d, poolResultsShape := %s, poolExecutorShape := %s }" % (
+        "true" if seed_ok else "false", len(core["whileLoops"]), len(core["helperRng"]), "true" if core["poolResultsShape"] else "false", "true" if core["poolExecutorShape"] else "false"))
     C.append("\nend Generated")
     return "\n".join(L) + "\n", "\n".join(C) + "\n"
 
